@@ -15,6 +15,64 @@ COMMON_NOTE = (
     "so agreement outside the explored cases is assumed; CPython int/float/re/str-formatting are modelled, not verified. ")
 
 CLAIMED = {
+    "C01": dict(
+        text=("Theorems (Props/C01.v) for every mode, every valid time point (3 representations, 3 precision shapes incl. 24:00 and "
+              "fractional forms in exact rational arithmetic, any offset, any year in Z) and every exact duration: p+d exists, its "
+              "Spec instant is instant(p)+len(d), representation/precision form/offset are kept, every field is in range with h<24 "
+              "as soon as d is non-empty; p-d = p+(-d). Proved through loop invariants for the three carry chains of _tick_over "
+              "(Pos.iter loops with proven-sufficient bounds). Correspondence: seeded p x d in all modes, exact on the integer "
+              "regime, 1 microsecond on the float regime; the oracle evaluates Spec instant/valid on the implementation's result."),
+        note="Python floats are modelled as exact rationals (ideal semantics); float rounding itself is not modelled.",
+        technique="Coq proof by loop invariants over the carry chains + model/implementation correspondence + Spec oracle",
+        design="7 C01"),
+    "C02": dict(
+        text=("Theorems (Props/C02.v): for all valid a, b in any mix of representations, offsets and precision forms (24:00 included) "
+              "the model's three-way _cmp equals Qcompare of the Spec instants; hence the six operators are the order of instants, "
+              "trichotomy/complementarity/unions, symmetry, transitivity; equal points have equal hash keys; sign of a-b agrees. "
+              "Correspondence on pairs re-zoned and re-expressed by the implementation itself, all six operators + hash + a-b."),
+        note="Float regime (fractional hour/minute forms across different offsets) is known finding F3; only the integer regime is compared exactly.",
+        technique="Coq proof (comparison = order of Spec instants) + pairwise model/implementation correspondence",
+        design="7 C02"),
+    "C04": dict(
+        text=("Theorems (Props/C04.v): a-b is DU 0 0 dd h m s with len = instant a - instant b, normalised with one sign, h and m whole; "
+              "(a-b) == -(b-a); b+(a-b) compares equal to a in b's representation/offset; (p+d)-p == d for exact d. "
+              "Correspondence on pairs at distances 0..1e6 days across year 0 and all spellings."),
+        note="Float regime falls under known finding F3 (a-b can recurse forever when float rounding makes a>b and b>a both true).",
+        technique="Coq proof + pairwise model/implementation correspondence + Spec oracle",
+        design="7 C04"),
+    "C05": dict(
+        text=("Theorems (Props/C05.v): add_months = n single clamping steps (Spec month_shift) with closed form for the month reached, "
+              "n+k months = n then k, any representation via calendar form and back with time/offset/shape preserved and result "
+              "normal; year shifts = min(day, target month/year/week-year length) per representation and stay valid; mixed durations "
+              "apply exact part, then months, then years; any sum of a valid point is valid."),
+        note="Syntactic equality of the time of day holds up to the reduced form of the same rational (tod_eqv).",
+        technique="Coq proof of refinement to an iterate-and-clamp spec + correspondence + Spec oracle",
+        design="7 C05"),
+    "C06": dict(
+        text=("Theorems (Props/C06.v): to_time_zone/to_utc of a valid point to any valid offset exists, has the same Spec instant, carries "
+              "exactly the requested offset, keeps representation and precision form, is valid; it compares Eq both ways, has an "
+              "equivalent hash key and an empty difference. Correspondence incl. to_local_time_zone with a faked system zone; "
+              "thorough tier sweeps all 11 999 destination offsets."),
+        note="The dump-with-literal-zone clause is covered with the dumper model under C08 when claimed; float regime hashes are known finding F3.",
+        technique="Coq proof (corollary of C01/C02/C04) + correspondence + Spec oracle",
+        design="7 C06"),
+    "C11": dict(
+        text=("Theorems (Props/C11.v) over arbitrary rational components: value of a sum, commutativity, associativity, identity, inverse, "
+              "n*d = n-fold sum, a-b = a+(-1)b; == is an equivalence, exact durations equal iff lengths equal, general characterisation "
+              "(exactness, years, months, length); equal durations have equal hash keys; (days, seconds) is a normal form of the rough "
+              "length and < <= > >= are its order (year = common-year length of the mode, month = 30 days)."),
+        note="TimeZone (subclass) excluded as the property says; decimal components compared exactly only when binary-exact.",
+        technique="Coq algebraic proofs over Q + correspondence on a duration pool",
+        design="7 C11"),
+    "C18": dict(
+        text=("Theorems (Props/C18.v): for every whole-minute offset (no bound) the (hours, minutes) split is exact with both parts carrying "
+              "the sign; DST selection rule; the three text forms denote the pair (finite reflection over the whole legal box, Z for "
+              "zero, reduced falls back); from_unix n denotes epoch+n in UTC or the local zone and is valid; seconds_since_unix_epoch "
+              "is floor(instant-epoch) at/after the epoch and exact when integral. Correspondence: zone configurations fed through a "
+              "replaced `time` module (thorough: every minute in +-24 h x 16 DST deltas x flags) and 40 POSIX TZ strings via tzset."),
+        note="time.*, the OS zone database and tzset are CPython/libc; for instants before the epoch with a fractional part int() truncates toward zero (outside the property).",
+        technique="Coq proof (lia + finite reflection) + correspondence with a faked time module + Spec oracle",
+        design="7 C18"),
     "C03": dict(
         text=("Machine-checked theorems (Props/C03.v, all years in Z, all four modes) that the model of the calendar helpers "
               "refines the closed-form proleptic calendar: leap rule, year/month/week lengths, days-in-year-range, week-year "
